@@ -11,12 +11,12 @@
 (*           outside the selected result column changed                          (C11)   *)
 (* Rejected events are collected (not stopped at) so that the remainder of the log is    *)
 (* still examined.                                                                       *)
-EXTENDS Integers, Sequences, TLC, Json, IOUtils, HalVecZnx, HalNorm, HalDft
+EXTENDS Integers, Sequences, TLC, Json, IOUtils, HalVecZnx, HalNorm, HalDft, Encoding
 
 Rec == ndJsonDeserialize(IOEnv.TRACE)
 
-VARIABLES i, bad
-vars == <<i, bad>>
+VARIABLES i, bad, prev
+vars == <<i, bad, prev>>
 
 Post(e) ==
   IF IsVecZnxOp(e.op) THEN VecZnxPost(e.op, e.n, e.p, e.rs, e.ins)
@@ -26,27 +26,56 @@ Post(e) ==
 Who(e, o) == {e.outs[o].who[w] : w \in 1..Len(e.outs[o].who)}
 
 \* relational operations (normalisation, shifts) are judged by a predicate, functional ones by equality
-OutOK(e, d) == IF IsNormOp(e.op) THEN NormOK(e.op, e.n, e.p, e.rs, e.ins, d) ELSE d = Post(e)
+OutOK(e, o) == IF IsNormOp(e.op) THEN NormOK(e.op, e.n, e.p, e.rs, e.ins, o.d)
+              ELSE IF IsEncOp(e.op) THEN EncOK(e.op, e.n, e.p, e.rs, e.ins, o.d, o.dec)
+              ELSE o.d = Post(e)
 
-SemOK(e)  == \A o \in 1..Len(e.outs) : e.outs[o].panic = "" /\ OutOK(e, e.outs[o].d)
+SemOK(e)  == \A o \in 1..Len(e.outs) : e.outs[o].panic = "" /\ OutOK(e, e.outs[o])
+\* diagnostic: a rejected relational event whose every outcome is still within two units ("sem1")
+Sem2OK(e) == IsNormOp(e.op) /\ \A o \in 1..Len(e.outs) :
+                e.outs[o].panic = "" /\ NormOK2(e.op, e.n, e.p, e.rs, e.ins, e.outs[o].d)
 BeOK(e)   == \A o1, o2 \in 1..Len(e.outs) : o1 # o2 =>
                  \A x \in Who(e, o1), y \in Who(e, o2) : x.f # y.f
 FillOK(e) == /\ e.frame
              /\ \A o1, o2 \in 1..Len(e.outs) : o1 # o2 =>
                  \A x \in Who(e, o1), y \in Who(e, o2) : x.b # y.b
 
+\* Exhaustive digit enumeration (descriptors carrying an alphabet): the harness must have supplied
+\* exactly tuple number (chunk*N + i) mod |alpha|^size of the lexicographic enumeration at coefficient i,
+\* and the chunks of one descriptor must appear consecutively 0..nchunks-1 -- so that "every digit
+\* tuple" is established by TLC and not taken on the harness's word.
+EnumSrc(e) == IF e.op \in {"normalize_assign", "lsh_assign", "rsh_assign"} THEN e.ins.r ELSE e.ins.a
+EnumOK(e) ==
+  \/ Len(e.alpha) = 0
+  \/ LET al == e.alpha
+         L == Len(al)
+         src == EnumSrc(e)
+         sz == Len(src)
+         N == Len(src[1])
+         total == L ^ sz
+     IN /\ e.nchunks = (total + N - 1) \div N
+        /\ e.chunk < e.nchunks
+        /\ \A c \in 1..N : \A j \in 1..sz :
+              src[j][c] = al[((((e.chunk * N + c - 1) % total) \div (L ^ (sz - j))) % L) + 1]
+SeqOK(e) ==
+  IF Len(e.alpha) = 0 THEN prev.chunk = prev.nchunks - 1
+  ELSE IF e.did = prev.did THEN e.chunk = prev.chunk + 1
+  ELSE prev.chunk = prev.nchunks - 1 /\ e.chunk = 0
+
 Verdict(e, k) ==
-     (IF SemOK(e)  THEN <<>> ELSE << <<k, "sem">> >>)
+     (IF EnumOK(e) /\ SeqOK(e) THEN <<>> ELSE << <<k, "enum">> >>) \o
+     (IF SemOK(e)  THEN <<>> ELSE << <<k, IF Sem2OK(e) THEN "sem1" ELSE "sem">> >>)
   \o (IF BeOK(e)   THEN <<>> ELSE << <<k, "be">> >>)
   \o (IF FillOK(e) THEN <<>> ELSE << <<k, "fill">> >>)
 
-Init == i = 1 /\ bad = <<>>
+Init == i = 1 /\ bad = <<>> /\ prev = [did |-> 0, chunk |-> 0, nchunks |-> 1]
 Next == /\ i <= Len(Rec)
         /\ i' = i + 1
         /\ bad' = bad \o Verdict(Rec[i], i)
+        /\ prev' = [did |-> Rec[i].did, chunk |-> Rec[i].chunk, nchunks |-> Rec[i].nchunks]
 Spec == Init /\ [][Next]_vars
 
 Done == i = Len(Rec) + 1
 \* always TRUE; prints the verdict once, in the final state
-Report == Done => PrintT(<<"VERDICT", Len(Rec), ToJson(bad)>>)
+Report == Done => PrintT(<<"VERDICT", Len(Rec), ToJson(IF prev.chunk = prev.nchunks - 1 THEN bad ELSE Append(bad, <<Len(Rec), "enum">>))>>)
 =============================================================================
